@@ -445,6 +445,19 @@ class SchemaGen:
         return {k: self.plain_value(depth - 1) for k in self.r.sample(["a", "b", 1, None, "k.x"], self.r.randint(0, 3))}
 
     def any_schema(self, depth):
+        """a schema of the given depth; construction that raises (DeclarationError for a contradictory draw, or anything
+        else when the library under test is broken) is retried and counted — a check for another property must not
+        crash because building its inputs does"""
+        for _ in range(20):
+            try:
+                return self._any_schema(depth)
+            except DeclarationError:
+                self._count("generator_declaration_rejected")
+            except Exception as e:  # noqa: BLE001
+                self._count("generator_build_exception:" + type(e).__name__)
+        return schema.none, None
+
+    def _any_schema(self, depth):
         if depth <= 0 or self.r.random() < .3:
             s, w = self.scalar()
         else:
@@ -476,9 +489,4 @@ class SchemaGen:
         return s, w
 
     def top(self):
-        for _ in range(20):
-            try:
-                return self.any_schema(self.max_depth)
-            except DeclarationError:
-                self._count("generator_declaration_rejected")
-        return schema.none, None
+        return self.any_schema(self.max_depth)
